@@ -14,6 +14,7 @@
 //!           `bool:0|1`    context variable of type bool (arithmetic only)
 //!           `flit:<hex16>` float literal (shortest round-trip decimal text of the bit pattern)
 //!           `fsrc:<text>=<hex16>` float literal spelled `<text>` (exponent notation, `.0`, `_`)
+//!           `fexp:(X<op>Y)=<hex16>` a float COMPUTED by the engine from the literals X, Y (op `*`, `/`, `%`)
 //!           `f64:<hex16>`  context variable of type f64
 //! extra streams: `lex <text>` first token of `<text>` as `int:<v>@<end>`, `int128:<v>@<end>`,
 //!           `float:<hex16>@<end>`, `err:SyntaxError`;
@@ -143,6 +144,15 @@ fn operand(tok: &str, name: &str) -> Opd {
         "src" | "fsrc" => {
             let (text, _) = val.rsplit_once('=').expect("src needs text=value");
             lit_opd(text)
+        }
+        "fexp" => {
+            // `(X<op>Y)=bits`: a float the ENGINE computes from two literals (folded at compile time in
+            // the source form, computed at run time in the `rt` form)
+            let (text, _) = val.rsplit_once('=').expect("fexp needs text=bits");
+            let inner = text.strip_prefix('(').and_then(|t| t.strip_suffix(')')).expect("fexp text is parenthesised");
+            let at = inner.char_indices().find(|(i, c)| *i > 0 && matches!(c, '*' | '/' | '%')).expect("fexp needs an operator").0;
+            let (x, y) = (lit_opd(&inner[..at]), lit_opd(&inner[at + 1..]));
+            Opd { src: text.to_string(), rt: format!("({}{}{})", x.rt, &inner[at..at + 1], y.rt), val: None }
         }
         "str" => var_opd(name, Value::from(String::from_utf8(unhex(val)).expect("bad utf8"))),
         "bool" => var_opd(name, Value::from(val == "1")),
@@ -474,6 +484,12 @@ fn run_case(envs: &Envs, fields: &[&str]) -> String {
     if rendered != expect_render {
         out.push_str(&format!("|render={}", rendered));
     }
+    // a float result is observed as text: the oracle reads the text back (it has to denote the same double)
+    if res.starts_with("f:") {
+        if let Some(s) = &shown {
+            out.push_str(&format!("|shown={}", s.replace(['|', '\t', '\n'], "?")));
+        }
+    }
     // literal operands: the constant folder must agree with the run-time operator
     if rts != srcs {
         let (rt_res, _) = eval(&expr_of(op, &rts));
@@ -511,6 +527,9 @@ fn run_case(envs: &Envs, fields: &[&str]) -> String {
     if let Some(ops) = op.strip_prefix("nest:") {
         let (o1, o2) = ops.split_once(',').expect("nest needs two operators");
         let inner = format!("{} {} {}", srcs[0], op_src(o1), srcs[1]);
+        // the value of the inner operator alone: the oracle judges the outer operator on it (a COMPUTED operand)
+        let (inner_res, _) = eval(&inner);
+        out.push_str(&format!("|inner={}", inner_res));
         let step = guarded(|| {
             let v = env.compile_expression(&inner)?.eval(&ctx)?;
             let ctx2 = context! { a => val(0), b => val(1), c => val(2), v => v };
@@ -1832,6 +1851,121 @@ fn generate(tier: &str) -> Vec<String> {
         let o2 = if rng.chance(1, 4) { *rng.pick(&CMP) } else { *rng.pick(&ARITH) };
         // all-literal, all-variable and mixed (partially foldable) forms all occur through the token choice
         cases.push(format!("nest:{},{} {} {} {}", o1, o2, a, b, c));
+    }
+
+    // 19. NEGATIVE ZERO in every comparison and chain position: `-0.0` is the same number as `0.0` and as
+    //     the integer 0 of every width, so no ordering operator may separate them and `==` holds
+    //     (`cmp_zero_signs_equal`).  `-0.0` as a literal (three spellings), as a variable (f64, serde
+    //     f64, f32) and COMPUTED by the engine (`0.0 * -1`, the float `%` of an exact negative multiple,
+    //     `-0.0 / 3`, an integer dividend), against every zero (each integer form, `+0.0` literal /
+    //     variable / computed, `-0.0` again) and the nearest non-zero numbers.
+    {
+        const NZ: u64 = 0x8000000000000000;
+        let nz_toks: Vec<String> = vec![
+            format!("flit:{:016x}", NZ), format!("fsrc:(-0.0)={:016x}", NZ), format!("fsrc:(-0e0)={:016x}", NZ), format!("fsrc:(-0.000)={:016x}", NZ),
+            format!("f64:{:016x}", NZ), format!("sf64:{:016x}", NZ), "f32:80000000".to_string(), "sf32:80000000".to_string(),
+            format!("fexp:(0.0*(-1))={:016x}", NZ), format!("fexp:((-4.0)%2.0)={:016x}", NZ), format!("fexp:((-0.0)/3)={:016x}", NZ),
+            format!("fexp:((-6)%2.0)={:016x}", NZ), format!("fexp:((-0.0)*5)={:016x}", NZ), format!("fexp:(0.0/(-7))={:016x}", NZ),
+            format!("fexp:((-1e-200)*1e-200)={:016x}", NZ),
+        ];
+        let mut zero_toks: Vec<String> = vec![
+            "lit:0".to_string(), "u64:0".to_string(), "i64:0".to_string(), "u128:0".to_string(), "i128:0".to_string(),
+            "su64:0".to_string(), "si64:0".to_string(), "su128:0".to_string(), "si128:0".to_string(),
+            "i8:0".to_string(), "u32:0".to_string(), "isize:0".to_string(), "src:0x0=0".to_string(), "src:(-0)=0".to_string(),
+            "flit:0000000000000000".to_string(), "f64:0000000000000000".to_string(), "sf64:0000000000000000".to_string(),
+            "f32:00000000".to_string(), "fsrc:0e0=0000000000000000".to_string(),
+            "fexp:(0.0*1)=0000000000000000".to_string(), "fexp:(4.0%2.0)=0000000000000000".to_string(),
+            "fexp:(1e-200*1e-200)=0000000000000000".to_string(),
+        ];
+        zero_toks.extend(nz_toks.iter().cloned());
+        let near_toks: Vec<String> = vec![
+            "lit:1".to_string(), "i64:-1".to_string(), "lit:-1".to_string(), "u128:1".to_string(),
+            "flit:0000000000000001".to_string(), "f64:8000000000000001".to_string(), "flit:8000000000000001".to_string(),
+            "f64:3ff0000000000000".to_string(), "flit:bff0000000000000".to_string(),
+            "fexp:(1e-200*4e-124)=0000000000000001".to_string(), "fexp:((-1e-200)*4e-124)=8000000000000001".to_string(),
+        ];
+        // every two-operand comparison, both orders (here also with the bare minus sign)
+        let bare = format!("fsrc:-0.0={:016x}", NZ);
+        for nz in nz_toks.iter().chain(std::iter::once(&bare)) {
+            for z in zero_toks.iter().chain(near_toks.iter()) {
+                for op in CMP {
+                    cases.push(format!("{} {} {}", op, nz, z));
+                    cases.push(format!("{} {} {}", op, z, nz));
+                }
+            }
+        }
+        // chains: -0.0 as first, middle and last operand, all 36 operator pairs
+        for (i, nz) in nz_toks.iter().enumerate() {
+            for o1 in CMP {
+                for o2 in CMP {
+                    let z1 = &zero_toks[(i * 7 + cases.len()) % zero_toks.len()];
+                    let z2 = &zero_toks[(i * 5 + cases.len() / 3) % zero_toks.len()];
+                    let n1 = &near_toks[(i + cases.len()) % near_toks.len()];
+                    cases.push(format!("chain:{},{} {} {} {}", o1, o2, nz, z1, z2));
+                    cases.push(format!("chain:{},{} {} {} {}", o1, o2, z1, nz, z2));
+                    cases.push(format!("chain:{},{} {} {} {}", o1, o2, z1, z2, nz));
+                    cases.push(format!("chain:{},{} {} {} {}", o1, o2, z1, nz, n1));
+                    cases.push(format!("chain:{},{} {} {} {}", o1, o2, n1, nz, z2));
+                }
+            }
+            for _ in 0..12 {
+                let (o1, o2, o3) = (*rng.pick(&CMP), *rng.pick(&CMP), *rng.pick(&CMP));
+                let (z1, z2, z3) = (rng.pick(&zero_toks).clone(), rng.pick(&zero_toks).clone(), rng.pick(&zero_toks).clone());
+                match rng.below(4) {
+                    0 => cases.push(format!("chain:{},{},{} {} {} {} {}", o1, o2, o3, nz, z1, z2, z3)),
+                    1 => cases.push(format!("chain:{},{},{} {} {} {} {}", o1, o2, o3, z1, nz, z2, z3)),
+                    2 => cases.push(format!("chain:{},{},{} {} {} {} {}", o1, o2, o3, z1, z2, nz, z3)),
+                    _ => cases.push(format!("chain:{},{},{} {} {} {} {}", o1, o2, o3, z1, z2, z3, nz)),
+                }
+            }
+        }
+        // a zero computed by an inner operator as the left operand of every comparison (the oracle judges
+        // the outer operator on the engine's inner value), and of the arithmetic operators
+        let inners: [(&str, &str, &str); 9] = [
+            ("mul", "flit:0000000000000000", "lit:-1"), ("rem", "flit:c010000000000000", "flit:4000000000000000"),
+            ("div", "flit:8000000000000000", "lit:3"), ("mul", "f64:0000000000000000", "i64:-1"),
+            ("rem", "i64:-6", "f64:4000000000000000"), ("sub", "lit:5", "lit:5"), ("add", "flit:bff0000000000000", "flit:3ff0000000000000"),
+            ("mul", "i64:0", "i64:-1"), ("fdiv", "f64:bfe0000000000000", "lit:-1"),
+        ];
+        for (o1, a, b) in inners {
+            for z in zero_toks.iter().chain(near_toks.iter()) {
+                for op in CMP {
+                    cases.push(format!("nest:{},{} {} {} {}", o1, op, a, b, z));
+                }
+                let o2 = ["add", "sub", "mul", "div"][cases.len() % 4];
+                cases.push(format!("nest:{},{} {} {} {}", o1, o2, a, b, z));
+            }
+        }
+        // min / max / sort / unique / in (the value order and `==` + hash at work inside filters)
+        const FUNCS19: [&str; 7] = ["f_min", "f_max", "f_sortfirst", "f_sortlast", "f_rsortfirst", "f_uniquelen", "f_in"];
+        for (i, nz) in nz_toks.iter().enumerate() {
+            for (j, z) in zero_toks.iter().chain(near_toks.iter()).enumerate() {
+                let f = FUNCS19[(i + j) % 7];
+                cases.push(format!("{} {} {}", f, nz, z));
+                cases.push(format!("{} {} {}", FUNCS19[(i + j + 3) % 7], z, nz));
+            }
+        }
+        // the tests and select / reject / selectattr under every registered name
+        const NAMES19: [&str; 15] = ["eq", "equalto", "==", "ne", "!=", "lt", "lessthan", "<", "le", "<=", "gt", "greaterthan", ">", "ge", ">="];
+        const IDENTS19: [&str; 9] = ["eq", "equalto", "ne", "lt", "lessthan", "le", "gt", "greaterthan", "ge"];
+        for nz in &nz_toks {
+            for (j, z) in zero_toks.iter().enumerate() {
+                for (k, name) in IDENTS19.iter().enumerate() {
+                    if (j + k) % 3 == 0 {
+                        cases.push(format!("is:{} {} {}", name, nz, z));
+                        cases.push(format!("is:{} {} {}", name, z, nz));
+                    }
+                }
+                for (k, name) in NAMES19.iter().enumerate() {
+                    match (j + k) % 9 {
+                        0 => cases.push(format!("sel:{} {} {}", name, nz, z)),
+                        1 => cases.push(format!("rej:{} {} {}", name, z, nz)),
+                        2 => cases.push(format!("selattr:{} {} {}", name, nz, z)),
+                        _ => {}
+                    }
+                }
+            }
+        }
     }
 
     // distinct, generation order kept
